@@ -197,10 +197,16 @@ static void run(Src &s) {
     g_case.shape_hash = fnv_u64((uint64_t)in.kind * 1000 + (uint64_t)in.line, f.skeleton());
     econf_file *kf = (econf_file *)-1;
     econf_err e;
+    // an empty comment argument means the default '#': code, file and line must be the same
+    std::string carg = f.C;
+    if (f.C == "#" && s.chance(20)) {
+      carg = "";
+      g_case.tag("empty_comment_argument");
+    }
     if (s.chance(30))
-      e = econf_readFileWithCallback(&kf, path.c_str(), f.D.c_str(), f.C.c_str(), accept_all, nullptr);
+      e = econf_readFileWithCallback(&kf, path.c_str(), f.D.c_str(), carg.c_str(), accept_all, nullptr);
     else
-      e = econf_readFile(&kf, path.c_str(), f.D.c_str(), f.C.c_str());
+      e = econf_readFile(&kf, path.c_str(), f.D.c_str(), carg.c_str());
     if (e == ECONF_SUCCESS && kf && kf != (econf_file *)-1) econf_freeFile(kf);
     VF_CHECK(e == KIND_CODE[in.kind], "wrong-code",
              "rc=" << e << " (" << econf_errString(e) << ") expected " << KIND_CODE[in.kind] << " ("
